@@ -28,10 +28,10 @@ CLAIMED = {
          "no use after free, queue order, no premature BUF_ERROR and (Spurious=FALSE) deadlock freedom / no lost wake-up. The "
          "model is bound to the code by trace validation of every critical section of real runs under TSan with schedule "
          "perturbation (each event = one model action with arguments bound) plus byte comparison with lzma_stream_decoder; one failing allocation at every ordinal of slicing runs (MEM_ERROR after a "
-         "correct prefix or unchanged behaviour).",
+         "correct prefix or unchanged behaviour; the failure paths are model actions and the runs are trace-validated).",
          "Trusted: TLC, TSan (only executed interleavings), the Lipton-reduction argument that critical sections are atomic "
-         "(lock discipline observed on traces), hooks (add-only, guarded), mt_drv.c. Cached-memory eviction order and main-thread "
-         "allocation-failure paths are not in the model (the latter are judged by outcome only).",
+         "(lock discipline observed on traces), hooks (add-only, guarded), mt_drv.c. Cached-memory eviction order is not in the model "
+         "(C09 covers the limit protocol).",
          "§4 C07"),
  "C08": ("TLA+ model of stream_encoder_mt.c/outqueue.c (MtEncoder.tla) model-checked by TLC against an ordering / flush / "
          "progress / liveness contract; executions of the real threaded encoder recorded through guarded hooks and validated "
